@@ -834,6 +834,12 @@ func (w *World) passAlloc(fns []*ssa.Function) []DFResult {
 				default:
 					continue
 				}
+				// a size read from the input - even a narrow one - inside a loop: the allocation per iteration (up to 65535 elements)
+				// is not covered by the bytes an iteration consumes, so the total is not linear in the input
+				if ok && strings.Contains(class, "-bit value") && loopOf(fn, b) {
+					class += "; inside a loop: up to that many elements are allocated per iteration, which the input consumed by an iteration does not pay for"
+					ok = false
+				}
 				out = append(out, DFResult{Name: fmt.Sprintf("%s#alloc-bound@%d", fnName(fn), n), OK: ok, Detail: what + ": size is " + class, At: w.posOf(ins.Pos())})
 				n++
 			}
@@ -1018,8 +1024,37 @@ func (w *World) passPools(fns []*ssa.Function) []DFResult {
 				return 0
 			})
 			ok := maxPuts+dputs <= gets
+			// per path: no path returns more objects to the pool than it took from it (a Put - explicit or deferred - on a path
+			// without the matching Get hands the pool an object somebody else owns)
+			excess := w.maxOnPathSigned(fn, func(ins ssa.Instruction) int {
+				var com *ssa.CallCommon
+				switch c := ins.(type) {
+				case *ssa.Call:
+					com = &c.Call
+				case *ssa.Defer:
+					com = &c.Call
+				default:
+					return 0
+				}
+				pkg, name := calleeOf(com)
+				if pkg != "sync" || len(com.Args) == 0 || com.Args[0] != ssa.Value(g) {
+					return 0
+				}
+				switch name {
+				case "Pool.Get":
+					return -1
+				case "Pool.Put":
+					return 1
+				}
+				return 0
+			})
+			detail := fmt.Sprintf("%d Get, at most %d explicit Put on a path + %d deferred Put of pool %s", gets, maxPuts, dputs, g.Name())
+			if excess > 0 {
+				ok = false
+				detail += fmt.Sprintf("; some path performs %d more Put than Get", excess)
+			}
 			out = append(out, DFResult{Name: fmt.Sprintf("%s#pool-discipline:%s", fnName(fn), g.Name()), OK: ok,
-				Detail: fmt.Sprintf("%d Get, at most %d explicit Put on a path + %d deferred Put of pool %s", gets, maxPuts, dputs, g.Name()), At: w.posOf(fn.Pos())})
+				Detail: detail, At: w.posOf(fn.Pos())})
 			_ = puts
 		}
 	}
@@ -1048,6 +1083,39 @@ func (w *World) maxOnPath(fn *ssa.Function, weight func(ssa.Instruction) int) in
 			}
 			if v := rec(s); v > best {
 				best = v
+			}
+		}
+		memo[b.Index] = own + best
+		return own + best
+	}
+	if len(fn.Blocks) == 0 {
+		return 0
+	}
+	return rec(fn.Blocks[0])
+}
+
+// maxOnPathSigned: like maxOnPath for weights of either sign (maximum over complete entry-to-exit paths, back edges ignored).
+func (w *World) maxOnPathSigned(fn *ssa.Function, weight func(ssa.Instruction) int) int {
+	back := backEdges(fn)
+	memo := map[int]int{}
+	done := map[int]bool{}
+	var rec func(b *ssa.BasicBlock) int
+	rec = func(b *ssa.BasicBlock) int {
+		if done[b.Index] {
+			return memo[b.Index]
+		}
+		done[b.Index] = true
+		own := 0
+		for _, ins := range b.Instrs {
+			own += weight(ins)
+		}
+		best, any := 0, false
+		for _, s := range b.Succs {
+			if back[[2]int{b.Index, s.Index}] {
+				continue
+			}
+			if v := rec(s); !any || v > best {
+				best, any = v, true
 			}
 		}
 		memo[b.Index] = own + best
